@@ -106,7 +106,7 @@ class C07(Check):
         "a successful one, write_block with pending records, append after an empty flush, or >=2 reopenings."
     )
     assumptions = ["a reopen is preceded by a flush (records never flushed before the writer is dropped are not 'submitted so far' at any flush)"]
-    required_labels = ["failed-then-success", "write_block-with-pending", "reopens>=2", "append-after-empty-flush", "family:empty", "family:rec", "family:flt", "family:nest", "reopen:position-after-reader", "reopen:position-in-the-middle", "reopen:schema-redefining-the-same-names", "stream:file", "validator:on", "validator:off", "auto-dump", "metadata-dict-reused", "block:iterated", "block:twice"]
+    required_labels = ["failed-then-success", "write_block-with-pending", "reopens>=2", "append-after-empty-flush", "family:empty", "family:rec", "family:flt", "family:nest", "reopen:position-after-reader", "reopen:position-in-the-middle", "reopen:schema-redefining-the-same-names", "stream:file-by-descriptor", "stream:file", "validator:on", "validator:off", "auto-dump", "metadata-dict-reused", "block:iterated", "block:twice"]
     quick = (1200, 1)
     thorough = (1500, 16)
 
@@ -132,6 +132,7 @@ class C07(Check):
                 "metadata": concase.gen_metadata(d),
                 "validator": d.p(0.35),
                 "stream": d.choice(["bytesio", "bytesio", "file"]),
+                "by_descriptor": d.p(0.4),
                 "parsed": d.p(0.3),
                 "metadata_used_before": d.choice([None, None, None] + codecs),
             }
@@ -248,6 +249,7 @@ class C07(Check):
         return data
 
     def _interpret(self, case, init, fam, js, schema, node, table, norm, donors, fo, labels):
+        path_of_fd = fo.name if (not isinstance(fo, io.BytesIO) and isinstance(fo.name, str)) else None
         kw = dict(codec=init["codec"], sync_interval=init["sync_interval"], metadata=dict(init["metadata"]), validator=init["validator"])
         if init["marker"] is not None:
             kw["sync_marker"] = init["marker"]
@@ -272,7 +274,7 @@ class C07(Check):
             if isinstance(fo, io.BytesIO):
                 data = fo.getvalue()
             else:
-                with open(fo.name, "rb") as other:
+                with open(fo.name if isinstance(fo.name, str) else path_of_fd, "rb") as other:
                     data = other.read()
             ctx = f"after {after}; history={history}; init={ {k: v for k, v in init.items() if k != 'metadata'} }"
             try:
@@ -382,9 +384,14 @@ class C07(Check):
                     kw["sync_marker"] = args["marker"]
                 pos = args.get("pos", "end")
                 if not isinstance(fo, io.BytesIO):
-                    path = fo.name
+                    path = fo.name if isinstance(fo.name, str) else path_of_fd
                     fo.close()
-                    fo = open(path, "a+b" if pos == "end" else "r+b")
+                    if init.get("by_descriptor"):
+                        # a file object built from an OS descriptor (os.fdopen, tempfile): its .name is the descriptor number
+                        labels.add("stream:file-by-descriptor")
+                        fo = os.fdopen(os.open(path, os.O_RDWR | (os.O_APPEND if pos == "end" else 0)), "a+b" if pos == "end" else "r+b")
+                    else:
+                        fo = open(path, "a+b" if pos == "end" else "r+b")
                 if pos == "end":
                     fo.seek(0, 2)
                 elif pos == "after-reader":
